@@ -27,6 +27,12 @@ CHECKS.append(
      "level_note": "Trusted: antenna.signals[k] as produced by apply_response (C08 not rechecked); the harness's FIR front-end model; per-hit waveform values may be any reception-prefix superposition containing the hit. Test pulses taper to zero at their window edges (a jump at the edge would make the answer depend on rounding between time grids).",
      "technique": TECH + "PRNG-scheduled query/receive/clear interleavings with refused-receive and raising-trigger faults vs bookkeeping model and absolute-time noise map"})
 
+CHECKS.append(
+    {"property_id": "C17", "category": "exploration", "design_ref": "DESIGN.md §4 C17",
+     "text": "Seeded search over histories of one noise realisation (FFT and exact-cosine implementations; grids 8-256 samples, bands inside / touching 0 / across and above Nyquist / one-bin, constant, function and default Rayleigh amplitudes, uniqueness 1-10, rms direct or from T,R) that is read, re-gridded (contained, overlapping, disjoint, far, off-grid), shifted, copied, rebuilt from its published basis, rebuilt from a basis written to and read from a file on the simulated disk through an antenna's noise master, and independently re-drawn - under seeded random streams with injected extreme draws (phase 0 / 1-2^-53, Rayleigh 0). Invariants on every object: values = explicit cosine sum of the published basis, frequencies in band, no DFT power outside the published bins, unit amplitudes give the requested RMS, rms = sqrt(k_B T R bandwidth), an absolute-time -> value map all views must agree with. A second machine checks the default-amplitude mean square over 400-object ensembles at 6 sigma.",
+     "level_note": "Trusted: the harness's cosine-sum evaluator with real-FFT bin weights; off-grid values of the FFT implementation are only compared with other observations of the same absolute time; distributional clause decided at 6 sigma on fixed seeds (gross normalisation errors, not per-mille bias).",
+     "technique": TECH + "seeded PRNG stream with buggify injections + re-grid/shift/copy/rebuild/file-restart histories vs explicit cosine-sum evaluator and absolute-time map"})
+
 NOT_APPLICABLE = [
     {"property_id": "C01", "reason": "pure function of (endpoints, ice parameters, dz): no state, randomness, I/O, schedule or fault for a simulator to control; needs an ODE/quadrature oracle (different technique)"},
     {"property_id": "C02", "reason": "metamorphic relations between pure function evaluations (swap/translate/rotate endpoints); no history or fault dimension (lazy-cache aspect of tracers is covered under C06)"},
@@ -43,5 +49,4 @@ NOT_APPLICABLE = [
     {"property_id": "C12", "reason": "claimed in DESIGN.md; check under construction in this session"},
     {"property_id": "C13", "reason": "claimed in DESIGN.md; check under construction in this session"},
     {"property_id": "C14", "reason": "claimed in DESIGN.md; check under construction in this session"},
-    {"property_id": "C17", "reason": "claimed in DESIGN.md; check under construction in this session"},
 ]
